@@ -56,7 +56,7 @@ package appencryption
 //@   facet C10, C02, C09
 //@   requires wfE(e) && ekr != nil
 //@   modifies ext_calls, live
-//@   ensures [C09:only-the-returned-key-s-secret-is-new] forall s securememory.Secret :: live(s) && !old(live(s)) ==> err == nil && s == result.secret
+//@   ensures [C09:only-the-returned-key-s-secret-is-new] forall s securememory.Secret :: live(s) && !old(live(s)) ==> fresh(s) && err == nil && s == result.secret
 //@   ensures [C09:nothing-released] forall s securememory.Secret :: old(live(s)) ==> live(s)
 //@   ensures (err == nil) == (result != nil)
 //@   ensures err == nil ==> result.created == old(ekr.Created) && result.secret != nil && valid(result.secret)
@@ -67,8 +67,9 @@ package appencryption
 //@   ensures [C09:references-balanced] forall k *cachedCryptoKey :: owed(k) == old(owed(k))
 //@   requires wfE(e) && sk != nil && ekr != nil
 //@   modifies ext_calls, ms, owed, live, cacheowned
-//@   ensures [C09:no-stray-secret] forall s securememory.Secret :: live(s) && !old(live(s)) ==> cacheowned(s) || (err == nil && s == result.secret)
+//@   ensures [C09:no-stray-secret] forall s securememory.Secret :: live(s) && !old(live(s)) ==> fresh(s) && (cacheowned(s) || (err == nil && s == result.secret))
 //@   ensures [C09:cache-ownership-is-kept] forall s securememory.Secret :: old(cacheowned(s)) ==> cacheowned(s)
+//@   ensures [C09:only-new-secrets-become-cache-owned] forall s securememory.Secret :: cacheowned(s) && !old(cacheowned(s)) ==> fresh(s)
 //@   ensures msGrows(old(ms), ms)
 //@   ensures (err == nil) == (result != nil)
 //@   ensures err == nil ==> result.created == old(ekr.Created) && result.secret != nil && valid(result.secret)
@@ -82,12 +83,13 @@ package appencryption
 //@ funcspec keyLoader
 //@   names meta
 //@   modifies ms, ext_calls, owed, live, cacheowned
-//@   ensures [C09:loader-leaves-no-stray-secret] forall s securememory.Secret :: live(s) && !old(live(s)) ==> cacheowned(s) || (err == nil && s == result.secret)
+//@   ensures [C09:loader-leaves-no-stray-secret] forall s securememory.Secret :: live(s) && !old(live(s)) ==> fresh(s) && (cacheowned(s) || (err == nil && s == result.secret))
 //@   ensures [C09:cache-ownership-is-kept] forall s securememory.Secret :: old(cacheowned(s)) ==> cacheowned(s)
+//@   ensures [C09:only-new-secrets-become-cache-owned] forall s securememory.Secret :: cacheowned(s) && !old(cacheowned(s)) ==> fresh(s)
 //@   ensures [C09:loader-releases-what-it-takes] forall k *cachedCryptoKey :: owed(k) == old(owed(k))
 //@   ensures msGrows(old(ms), ms)
 //@   ensures (err == nil) == (result != nil)
-//@   ensures err == nil ==> result.secret != nil && valid(result.secret)
+//@   ensures err == nil ==> result.secret != nil && valid(result.secret) && fresh(result.secret)
 //@   ensures err == nil && loaderFor(this, meta.ID) ==> ms[meta.ID][result.created]
 //@   ensures err == nil && loaderExact(this) ==> result.created == meta.Created
 
@@ -95,8 +97,10 @@ package appencryption
 //@   names id, loader
 //@   param loader keyLoader
 //@   modifies owed, live, cacheowned
-//@   ghost ensures forall s securememory.Secret :: live(s) && !old(live(s)) ==> cacheowned(s) || (err == nil && s == result.CryptoKey.secret)
+//@   ghost ensures forall s securememory.Secret :: live(s) && !old(live(s)) ==> fresh(s) && (cacheowned(s) || (err == nil && s == result.CryptoKey.secret))
 //@   ghost ensures forall s securememory.Secret :: old(cacheowned(s)) ==> cacheowned(s)
+//@   ghost ensures forall s securememory.Secret :: cacheowned(s) && !old(cacheowned(s)) ==> fresh(s)
+//@   ghost ensures err == nil && !cacheowned(result.CryptoKey.secret) ==> owed(result) == 1
 //@   ghost ensures err == nil ==> owed(result) == old(owed(result)) + 1
 //@   ghost ensures forall k *cachedCryptoKey :: k != result || err != nil ==> owed(k) == old(owed(k))
 //@   requires [C02,C14:loader-fits-id] loaderFor(loader, id.ID) && (id.Created != 0 ==> loaderExact(loader))
@@ -110,8 +114,10 @@ package appencryption
 //@   names id, loader
 //@   param loader keyLoader
 //@   modifies owed, live, cacheowned
-//@   ghost ensures forall s securememory.Secret :: live(s) && !old(live(s)) ==> cacheowned(s) || (err == nil && s == result.CryptoKey.secret)
+//@   ghost ensures forall s securememory.Secret :: live(s) && !old(live(s)) ==> fresh(s) && (cacheowned(s) || (err == nil && s == result.CryptoKey.secret))
 //@   ghost ensures forall s securememory.Secret :: old(cacheowned(s)) ==> cacheowned(s)
+//@   ghost ensures forall s securememory.Secret :: cacheowned(s) && !old(cacheowned(s)) ==> fresh(s)
+//@   ghost ensures err == nil && !cacheowned(result.CryptoKey.secret) ==> owed(result) == 1
 //@   ghost ensures err == nil ==> owed(result) == old(owed(result)) + 1
 //@   ghost ensures forall k *cachedCryptoKey :: k != result || err != nil ==> owed(k) == old(owed(k))
 //@   requires [C02,C14:loader-fits-id] loaderFor(loader, id)
@@ -225,7 +231,9 @@ package appencryption
 //@   safety C07
 //@   requires wfE(e)
 //@   modifies ext_calls, ms, owed, live, cacheowned
+//@   ensures [C09:no-stray-secret] forall s securememory.Secret :: live(s) && !old(live(s)) ==> fresh(s) && (cacheowned(s) || (err == nil && s == result.secret))
 //@   ensures [C09:cache-ownership-is-kept] forall s securememory.Secret :: old(cacheowned(s)) ==> cacheowned(s)
+//@   ensures [C09:only-new-secrets-become-cache-owned] forall s securememory.Secret :: cacheowned(s) && !old(cacheowned(s)) ==> fresh(s)
 //@   ensures [C02:ms-only-grows] msGrows(old(ms), ms)
 //@   ensures [C02:error-returns-nil] (err == nil) == (result != nil)
 //@   ensures [C02,C14:backed] err == nil ==> result.secret != nil && valid(result.secret) && ms[meta.ID][result.created]
@@ -237,7 +245,7 @@ package appencryption
 //@   safety C07
 //@   requires wfE(e)
 //@   modifies ext_calls, ms, owed, live
-//@   ensures [C09:only-the-returned-key-s-secret-is-new] forall s securememory.Secret :: live(s) && !old(live(s)) ==> err == nil && s == result.secret
+//@   ensures [C09:only-the-returned-key-s-secret-is-new] forall s securememory.Secret :: live(s) && !old(live(s)) ==> fresh(s) && err == nil && s == result.secret
 //@   ensures [C09:nothing-released] forall s securememory.Secret :: old(live(s)) ==> live(s)
 //@   ensures [C02:ms-only-grows] msGrows(old(ms), ms)
 //@   ensures [C02:error-returns-nil] (err == nil) == (result != nil)
@@ -290,7 +298,7 @@ package appencryption
 //@   ensures [C09:references-balanced] forall k *cachedCryptoKey :: owed(k) == old(owed(k))
 //@   requires wfE(e)
 //@   modifies ext_calls, ms, owed, live
-//@   ensures [C09:only-the-returned-key-s-secret-is-new] forall s securememory.Secret :: live(s) && !old(live(s)) ==> err == nil && s == result.secret
+//@   ensures [C09:only-the-returned-key-s-secret-is-new] forall s securememory.Secret :: live(s) && !old(live(s)) ==> fresh(s) && err == nil && s == result.secret
 //@   ensures [C09:nothing-released] forall s securememory.Secret :: old(live(s)) ==> live(s)
 //@   ensures [C02:ms-only-grows] msGrows(old(ms), ms)
 //@   ensures [C02:error-returns-nil] (err == nil) == (result != nil)
@@ -309,7 +317,9 @@ package appencryption
 //@   requires wfE(e)
 //@   modifies ext_calls, ms, owed, live, cacheowned
 //@   ensures [C09:unsaved-key-released] ret(GenerateKey, 1, 1) == nil && (err != nil || result != ret(GenerateKey, 1, 0)) ==> !live(ret(GenerateKey, 1, 0).secret)
+//@   ensures [C09:no-stray-secret] forall s securememory.Secret :: live(s) && !old(live(s)) ==> fresh(s) && (cacheowned(s) || (err == nil && s == result.secret))
 //@   ensures [C09:cache-ownership-is-kept] forall s securememory.Secret :: old(cacheowned(s)) ==> cacheowned(s)
+//@   ensures [C09:only-new-secrets-become-cache-owned] forall s securememory.Secret :: cacheowned(s) && !old(cacheowned(s)) ==> fresh(s)
 //@   ensures [C02:ms-only-grows] msGrows(old(ms), ms)
 //@   ensures [C02:error-returns-nil] (err == nil) == (result != nil)
 //@   ensures [C02,C14:backed] err == nil ==> result.secret != nil && valid(result.secret) && ms[ikidOf(e.partition)][result.created]
@@ -319,7 +329,9 @@ package appencryption
 //@   ensures [C09:references-balanced] forall k *cachedCryptoKey :: owed(k) == old(owed(k))
 //@   requires wfE(e)
 //@   modifies ext_calls, ms, owed, live, cacheowned
+//@   ensures [C09:no-stray-secret] forall s securememory.Secret :: live(s) && !old(live(s)) ==> fresh(s) && (cacheowned(s) || (err == nil && s == result.secret))
 //@   ensures [C09:cache-ownership-is-kept] forall s securememory.Secret :: old(cacheowned(s)) ==> cacheowned(s)
+//@   ensures [C09:only-new-secrets-become-cache-owned] forall s securememory.Secret :: cacheowned(s) && !old(cacheowned(s)) ==> fresh(s)
 //@   ensures [C02:ms-only-grows] msGrows(old(ms), ms)
 //@   ensures [C02:error-returns-nil] (err == nil) == (result != nil)
 //@   ensures [C02,C14:backed] err == nil ==> result.secret != nil && valid(result.secret) && (id == ikidOf(e.partition) ==> ms[id][result.created])
@@ -343,7 +355,7 @@ package appencryption
 //@   opt no-frame
 //@   requires wfE(e)
 //@   ensures [C09:references-balanced] forall k *cachedCryptoKey :: owed(k) == old(owed(k))
-//@   ensures [C09:no-stray-secret] forall s securememory.Secret :: live(s) && !old(live(s)) ==> cacheowned(s) || s == ret(GetOrLoadLatest, 1, 0).CryptoKey.secret
+//@   ensures [C09:no-stray-secret] forall s securememory.Secret :: live(s) && !old(live(s)) ==> fresh(s) && (cacheowned(s) || s == ret(GetOrLoadLatest, 1, 0).CryptoKey.secret)
 //@   ensures [C09:drk-secret-released] ret(GenerateKey, 1, 1) == nil ==> !live(ret(GenerateKey, 1, 0).secret)
 //@   ensures [C02:error-returns-nil] (err == nil) == (result != nil)
 //@   ensures [C02,C14:record-well-formed] err == nil ==> result.Key != nil && result.Key.ParentKeyMeta != nil && result.Key.ParentKeyMeta.ID == ikidOf(e.partition)
@@ -408,6 +420,7 @@ package appencryption
 //@   havocs cdom(this.keys), cval(this.keys)
 //@   invariant [wired] this.keys != nil && this.latest != nil && this.policy != nil
 //@   invariant [entries-well-formed] forall k string :: cdom(this.keys)[k] ==> wfCK(cval(this.keys)[k].key)
+//@   invariant [entries-secrets-cache-owned] forall k string :: cdom(this.keys)[k] ==> cacheowned(cval(this.keys)[k].key.CryptoKey.secret)
 //@   invariant [entries-backed] forall id string, c int64 :: cdom(this.keys)[ck(id, c)] ==> ms[id][cval(this.keys)[ck(id, c)].key.CryptoKey.created]
 //@   invariant [entries-filed-under-their-stamp] forall id string, c int64 :: cdom(this.keys)[ck(id, c)] ==> cval(this.keys)[ck(id, c)].key.CryptoKey.created == c
 //@   invariant [latest-alias-keeps-id] forall id string :: ck(id, 0) in this.latest ==> this.latest[ck(id, 0)].ID == id
@@ -417,8 +430,10 @@ package appencryption
 //@   facet C09, C02, C14, C07, C08
 //@   safety C07
 //@   opt no-frame
-//@   ensures [C09:no-stray-secret] forall s securememory.Secret :: live(s) && !old(live(s)) ==> cacheowned(s) || (err == nil && s == result.CryptoKey.secret)
+//@   ensures [C09:uncached-key-has-one-reference] err == nil && !cacheowned(result.CryptoKey.secret) ==> owed(result) == 1
+//@   ensures [C09:no-stray-secret] forall s securememory.Secret :: live(s) && !old(live(s)) ==> fresh(s) && (cacheowned(s) || (err == nil && s == result.CryptoKey.secret))
 //@   ensures [C09:cache-ownership-is-kept] forall s securememory.Secret :: old(cacheowned(s)) ==> cacheowned(s)
+//@   ensures [C09:only-new-secrets-become-cache-owned] forall s securememory.Secret :: cacheowned(s) && !old(cacheowned(s)) ==> fresh(s)
 //@   ensures [C09,C08:returns-exactly-one-reference] err == nil ==> owed(result) == old(owed(result)) + 1
 //@   ensures [C09:no-other-reference-moves] forall k *cachedCryptoKey :: k != result || err != nil ==> owed(k) == old(owed(k))
 //@   param loader keyLoader
@@ -433,8 +448,10 @@ package appencryption
 //@   facet C09, C02, C14, C07, C08
 //@   safety C07
 //@   opt no-frame
-//@   ensures [C09:no-stray-secret] forall s securememory.Secret :: live(s) && !old(live(s)) ==> cacheowned(s) || (err == nil && s == result.CryptoKey.secret)
+//@   ensures [C09:uncached-key-has-one-reference] err == nil && !cacheowned(result.CryptoKey.secret) ==> owed(result) == 1
+//@   ensures [C09:no-stray-secret] forall s securememory.Secret :: live(s) && !old(live(s)) ==> fresh(s) && (cacheowned(s) || (err == nil && s == result.CryptoKey.secret))
 //@   ensures [C09:cache-ownership-is-kept] forall s securememory.Secret :: old(cacheowned(s)) ==> cacheowned(s)
+//@   ensures [C09:only-new-secrets-become-cache-owned] forall s securememory.Secret :: cacheowned(s) && !old(cacheowned(s)) ==> fresh(s)
 //@   ensures [C09,C08:returns-exactly-one-reference] err == nil ==> owed(result) == old(owed(result)) + 1
 //@   ensures [C09:no-other-reference-moves] forall k *cachedCryptoKey :: k != result || err != nil ==> owed(k) == old(owed(k))
 //@   param loader keyLoader
@@ -449,8 +466,10 @@ package appencryption
 //@   facet C09, C02, C14, C07
 //@   safety C07
 //@   opt no-frame
-//@   ensures [C09:no-stray-secret] forall s securememory.Secret :: live(s) && !old(live(s)) ==> cacheowned(s) || (err == nil && s == result.CryptoKey.secret)
+//@   ensures [C09:uncached-key-has-one-reference] err == nil && !cacheowned(result.CryptoKey.secret) ==> owed(result) == 1
+//@   ensures [C09:no-stray-secret] forall s securememory.Secret :: live(s) && !old(live(s)) ==> fresh(s) && (cacheowned(s) || (err == nil && s == result.CryptoKey.secret))
 //@   ensures [C09:cache-ownership-is-kept] forall s securememory.Secret :: old(cacheowned(s)) ==> cacheowned(s)
+//@   ensures [C09:only-new-secrets-become-cache-owned] forall s securememory.Secret :: cacheowned(s) && !old(cacheowned(s)) ==> fresh(s)
 //@   ensures [C09,C08:returns-exactly-one-reference] err == nil ==> owed(result) == old(owed(result)) + 1
 //@   ensures [C09:no-other-reference-moves] forall k *cachedCryptoKey :: k != result || err != nil ==> owed(k) == old(owed(k))
 //@   param loader keyLoader
@@ -463,8 +482,10 @@ package appencryption
 //@   facet C09, C02, C14, C07
 //@   safety C07
 //@   opt no-frame
-//@   ensures [C09:no-stray-secret] forall s securememory.Secret :: live(s) && !old(live(s)) ==> cacheowned(s) || (err == nil && s == result.CryptoKey.secret)
+//@   ensures [C09:uncached-key-has-one-reference] err == nil && !cacheowned(result.CryptoKey.secret) ==> owed(result) == 1
+//@   ensures [C09:no-stray-secret] forall s securememory.Secret :: live(s) && !old(live(s)) ==> fresh(s) && (cacheowned(s) || (err == nil && s == result.CryptoKey.secret))
 //@   ensures [C09:cache-ownership-is-kept] forall s securememory.Secret :: old(cacheowned(s)) ==> cacheowned(s)
+//@   ensures [C09:only-new-secrets-become-cache-owned] forall s securememory.Secret :: cacheowned(s) && !old(cacheowned(s)) ==> fresh(s)
 //@   ensures [C09,C08:returns-exactly-one-reference] err == nil ==> owed(result) == old(owed(result)) + 1
 //@   ensures [C09:no-other-reference-moves] forall k *cachedCryptoKey :: k != result || err != nil ==> owed(k) == old(owed(k))
 //@   param loader keyLoader
@@ -489,7 +510,7 @@ package appencryption
 // Leaf functions move references (ghost ensures: assumed by callers); every other function is checked.
 // =====================================================================================================
 
-//@ ghost field owed(*cachedCryptoKey) int
+//@ ghost field owed(*cachedCryptoKey) int default 0
 // cacheowned(s): secret s belongs to a key that has been handed to a key cache (the cache releases it on eviction / Close)
 //@ ghost field cacheowned(securememory.Secret) bool default false
 //@ spec fn owedSame(a map[ref]int, b map[ref]int) bool = forall k ref :: a[k] == b[k]
@@ -501,6 +522,7 @@ package appencryption
 //@   modifies owed(c), live(c.CryptoKey.secret)
 //@   ghost ensures owed(c) == old(owed(c)) - 1
 //@   ghost ensures live(c.CryptoKey.secret) ==> old(live(c.CryptoKey.secret))
+//@   ghost ensures [a key no cache holds is destroyed with its last reference] !old(cacheowned(c.CryptoKey.secret)) && old(owed(c)) == 1 ==> !live(c.CryptoKey.secret)
 
 //@ func newCachedCryptoKey
 //@   facet C09, C08
